@@ -136,6 +136,8 @@ func c18(c *Ctx) {
 		}
 	}
 
+	c.ExpectAll("chunk/reader-no-read-ahead", c.fieldStores("chunk.NewReader", "chunk.Reader.r"), "p0", 1, "the chunk reader reads from the caller's reader itself - no buffering layer that could read past the end-of-body marker",
+		"the replica creates a chunk reader per LTX frame and goes back to the raw stream afterwards: bytes read ahead (the HWM, Ready or next LTX frame) would be lost with the chunk reader")
 	// ---- stateless codec ----
 	{
 		allowed := map[string]string{
